@@ -298,6 +298,16 @@ theorem greater_incomplete_err (e : Sev) : ¬ NoErr (e.greater .incomplete) := b
   cases e <;> simp [NoErr, Sev.greater, Sev.toInt]
 
 /-! ### skipTo / CheckRemainingInput -/
+/-- a character of the list is a delimiter in every configuration -/
+@[simp] theorem delimAt_of_isDelim (cfg : LexCfg) (ds : List Byte) (c : Byte) (h : isDelim ds c = true) :
+    delimAt cfg ds c = true := by simp [delimAt, h]
+
+/-- the sentinel test only ever adds a WARNING: without an error it said no -/
+theorem noErr_warnIf (e : Sev) (b : Bool) (h : NoErr (e.warnIf b)) : b = false ∧ NoErr e := by
+  cases b with
+  | false => exact ⟨rfl, by simpa [Sev.warnIf] using h⟩
+  | true => exact absurd h (by simpa [Sev.warnIf] using greater_warning_err e)
+
 theorem delimAt_false {cfg : LexCfg} {ds : List Byte} {c : Byte} (h : delimAt cfg ds c = false) : isDelim ds c = false := by
   simp [delimAt] at h; exact h.2
 
